@@ -157,8 +157,20 @@ func runOne(t *testing.T, p *simkit.Prop, c *simkit.Case, idx int, keep bool) *s
 			if r := recover(); r != nil {
 				simkit.SchedSeed(0)
 				errText = fmt.Sprint(r)
+				if strings.Contains(errText, "all goroutines in bubble are blocked") {
+					// nothing can run and no timer is pending: a deadlock of the system
+					// under test; the stacks decide (orchestrator) whether it is a lock cycle
+					buf := make([]byte, 8<<20)
+					n := runtime.Stack(buf, true)
+					fmt.Fprintf(os.Stderr, "VERIF-WATCHDOG idx=%d synctest: %s\n%s\n", idx, errText, buf[:n])
+					os.Exit(3)
+				}
 				if strings.Contains(errText, "deadlock") {
+					// the run finished but goroutines of the bubble are still blocked
 					status = "leak"
+					buf := make([]byte, 4<<20)
+					n := runtime.Stack(buf, true)
+					errText += "\n" + leakSummary(string(buf[:n]))
 				} else {
 					status = "error"
 				}
@@ -187,4 +199,27 @@ func runOne(t *testing.T, p *simkit.Prop, c *simkit.Case, idx int, keep bool) *s
 		res.Events = run.OrderedEvents()
 	}
 	return res
+}
+
+// leakSummary keeps the first frames of the bubble goroutines that are still
+// blocked after the run ended.
+func leakSummary(stacks string) string {
+	var out []string
+	for _, g := range strings.Split(stacks, "\n\n") {
+		if !strings.Contains(g, "synctest bubble") || strings.Contains(g, "testing.tRunner") {
+			continue
+		}
+		lines := strings.Split(g, "\n")
+		var fr []string
+		for _, l := range lines[1:] {
+			if !strings.HasPrefix(l, "\t") && len(fr) < 4 {
+				fr = append(fr, strings.Split(l, "(")[0])
+			}
+		}
+		out = append(out, lines[0]+" "+strings.Join(fr, " < "))
+		if len(out) >= 12 {
+			break
+		}
+	}
+	return strings.Join(out, "\n")
 }
